@@ -481,3 +481,17 @@ def item_dyn(v):
     elif kind == 7:
         m.append(('v', ('o', [(bytes.fromhex(kv[0]['s']).decode('utf-8'), item_dyn(kv[1])) for kv in v['v']['m']])))
     return ('o', m)
+
+
+def _selfcheck():
+    """The calendar helpers are compared with CPython datetime over years 1..9999 (every 97th day) at import."""
+    import datetime
+    epoch = datetime.date(1970, 1, 1).toordinal()
+    for o in range(1, datetime.date(9999, 12, 31).toordinal() + 1, 97):
+        dt = datetime.date.fromordinal(o)
+        n = o - epoch
+        if days_from_civil(dt.year, dt.month, dt.day) != n or civil_from_days(n) != (dt.year, dt.month, dt.day):
+            raise AssertionError('calendar helper disagrees with datetime at %s' % dt)
+
+
+_selfcheck()
